@@ -516,7 +516,8 @@ def _mutations(base, rnd, k, values=(False, True)):
 
 
 def deep_alphas(d):
-    rnd = _random.Random(hash(json_key(d)) % 100000)
+    import zlib
+    rnd = _random.Random(zlib.crc32(json_key(d).encode()) % 100000)      # stable across processes (no str hash)
     f = d["func"]
     if f == "active_vertices_connected":
         n, _ = _struct(d)
@@ -591,6 +592,8 @@ def deep_alphas(d):
             return [k in hs for k in hk] + [k in vs for k in vk]
         per_h = {(0, x) for x in range(w)} | {(h, x) for x in range(w)}
         per_v = {(y, 0) for y in range(h)} | {(y, w) for y in range(h)}
+        if d.get("weave"):
+            return _weaves(h, w, d["single_cycle"], rnd)
         bases = [pack(per_h, per_v), pack(set(), set()), pack({(0, x) for x in range(w)}, set()),
                  pack({(y, x) for y in range(h + 1) for x in range(w)}, {(y, x) for y in range(h) for x in range(w + 1)})]
         for cy in range(1, h):
@@ -601,6 +604,79 @@ def deep_alphas(d):
                 bases.append(pack({(cy, cx - 1), (cy, cx), (cy - 1, cx)}, {(cy - 1, cx), (cy, cx), (cy - 1, cx + 1)} if cx + 1 <= w else set()))
         return [a for b in bases for a in _mutations(b, rnd, 6)]
     raise ValueError(f)
+
+
+def _weaves(h, w, single_cycle, rnd):
+    """dense woven strands on the lattice of an h x w frame: every interior row and column is a full straight
+    line (a crossing at every interior point); the line ends, taken in cyclic order round the perimeter, are
+    joined pairwise by perimeter runs (two perfect matchings), optionally with one join left out (open trail).
+    The reference predicate sorts them; the densest admissible ones (most visited points + crossings, where a
+    spanning-tree certificate is deepest) are kept together with a few inadmissible ones and single mutations."""
+    P, Q = h + 1, w + 1
+    if P < 3 or Q < 3:
+        return []
+    hk = [(y, x) for y in range(h + 1) for x in range(w)]
+    vk = [(y, x) for y in range(h) for x in range(w + 1)]
+    per = [(0, x) for x in range(Q)] + [(y, Q - 1) for y in range(1, P)] + [(P - 1, x) for x in range(Q - 2, -1, -1)] + [(y, 0) for y in range(P - 2, 0, -1)]
+    ends = [k for k, (y, x) in enumerate(per) if (y in (0, P - 1)) != (x in (0, Q - 1))]      # perimeter points that are not corners
+    base_h = {(r, x) for r in range(1, P - 1) for x in range(Q - 1)}
+    base_v = {(y, c) for c in range(1, Q - 1) for y in range(P - 1)}
+
+    def run(a, b):
+        hs, vs = set(), set()
+        k = a
+        while k != b:
+            p, q = per[k], per[(k + 1) % len(per)]
+            (y1, x1), (y2, x2) = sorted([p, q])
+            (hs if y1 == y2 else vs).add((y1, x1))
+            k = (k + 1) % len(per)
+        return hs, vs
+
+    # every set of non-overlapping joins of cyclically consecutive line ends (a few hundred for the boards used)
+    n_e = len(ends)
+    matchings = []
+
+    def rec(i, used_first, cur):
+        if len(matchings) > 4000:
+            return
+        if i >= n_e:
+            matchings.append(list(cur))
+            return
+        rec(i + 1, used_first, cur)
+        if i + 1 < n_e:
+            cur.append(i)
+            rec(i + 2, used_first, cur)
+            cur.pop()
+        elif i == n_e - 1 and not used_first:
+            cur.append(i)
+            rec(i + 2, used_first, cur)
+            cur.pop()
+
+    rec(1, False, [])          # end 0 free or joined to the last one
+    rec(2, True, [0])          # end 0 joined to end 1
+    cands = []
+    for mt in matchings:
+        if len(mt) < n_e // 2 - 1:
+            continue           # at most one pair of line ends left open
+        hs, vs = set(base_h), set(base_v)
+        for i0 in mt:
+            rh, rv = run(ends[i0], ends[(i0 + 1) % n_e])
+            hs |= rh
+            vs |= rv
+        cands.append([k in hs for k in hk] + [k in vs for k in vk])
+    good, bad = [], []
+    for a in cands:
+        hor = dict(zip(hk, a[:len(hk)]))
+        ver = dict(zip(vk, a[len(hk):]))
+        ok, visited, cross = graphpred.crossable(h, w, hor, ver, single_cycle)
+        (good if ok else bad).append((sum(visited.values()) + sum(cross.values()), a))
+    good.sort(key=lambda t: -t[0])
+    out = []
+    for _, a in good[:5]:
+        out += _mutations(a, rnd, 1)
+    for _, a in bad[:3]:
+        out.append(a)
+    return out
 
 
 def _frame_cycles(h, w):
@@ -743,4 +819,7 @@ def deep_descs(prop, tier):
             for sc in (False, True):
                 for prim in (False,):      # the reference encoding of the native operator is cubic in the graph size
                     out.append(dict(func="active_edges_connected_crossable", frame=list(fr), single_cycle=sc, prim=prim, deep=True))
+        for fr in ((4, 5), (5, 4)) + (((5, 5), (4, 6)) if big else ()):
+            for sc in (False, True):
+                out.append(dict(func="active_edges_connected_crossable", frame=list(fr), single_cycle=sc, prim=False, deep=True, weave=True))
     return out
